@@ -63,6 +63,7 @@ from pyimpspec.analysis.fitting import (
 from pyimpspec.analysis.utility import (
     _interpolate,
     _calculate_pseudo_chisqr,
+    _calculate_residuals,
 )
 from pyimpspec.exceptions import DRTError
 from .result import DRTResult
@@ -601,7 +602,7 @@ def calculate_drt_mrq_fit(
         gammas=gamma,
         frequencies=f,
         impedances=Z_fit,
-        residuals=fit.residuals,
+        residuals=_calculate_residuals(Z_exp=data.get_impedances(), Z_fit=Z_fit),
         pseudo_chisqr=_calculate_pseudo_chisqr(
             Z_exp=data.get_impedances(), Z_fit=Z_fit
         ),
